@@ -9,6 +9,7 @@ from . import gen_graph, gen_str, gen_dyn
 from .common import (EXIT_DEADLOCK, EXIT_INVARIANT, EXIT_STEP_BUDGET, Plan, STRATEGIES,
                      check_sim_health, rm_rf, rng_for, scratch_dir, sim_link)
 from .elf import Elf
+from .family_fs import SIMSYS, read_syslog
 
 PRIOR_STATES = ["absent", "absent", "shorter", "longer", "random", "previous"]
 
@@ -181,6 +182,14 @@ def run_job(job):
                 prior, mode, mmap = "ff-longer", "--update-in-place", None
             elif v == 2:
                 prior, mode = "aa-exact", "--update-in-place"
+            # Forced fallback paths through the system-call fault seam: the output cannot be mapped
+            # (wild falls back to an in-memory image + write), and the write is short (write_all must
+            # loop). A successful link must still produce the same bytes.
+            sysfault = None
+            if v == 3:
+                sysfault, mmap = "mmaprw#1=ENODEV", None
+            elif v == 4:
+                sysfault, mmap = f"mmaprw#1=ENOMEM;write#1=short:{1 + prior_bytes_seed % 5000}", None
             if only is not None and v not in only:
                 continue
             out = os.path.join(workdir, "out")
@@ -195,9 +204,19 @@ def run_job(job):
             if mmap:
                 argv.append(mmap)
             env = {"WILD_FILES_PER_GROUP": str(fpg) if fpg else None}
+            syslog = os.path.join(workdir, f"v{v}.syslog")
+            if sysfault:
+                env.update({"LD_PRELOAD": SIMSYS, "WILD_SIM_SYSFAULT": sysfault,
+                            "WILD_SIM_SYSFAULT_DIR": workdir, "WILD_SIM_SYSFAULT_LOG": syslog})
             plan = Plan(pseed, strategy, log_level=1, hash_seed=hash_seed)
             r = sim_link(argv, workdir, plan, tag=f"v{v}", env_extra=env)
             check_sim_health(r, f"det job {index} variant {v}")
+            if sysfault:
+                _, fired = read_syslog(syslog)
+                c["sysfault_variants"] = c.get("sysfault_variants", 0) + 1
+                c["sysfault_rules_fired"] = c.get("sysfault_rules_fired", 0) + len(fired)
+                env = {k: v_ for k, v_ in env.items() if k not in ("LD_PRELOAD", "WILD_SIM_SYSFAULT_DIR",
+                                                                   "WILD_SIM_SYSFAULT_LOG")}
             res["runs"] += 1
             res.setdefault("trace", []).append((v, r.status, r.steps, r.trace_hash))
             res["steps"] += r.steps
